@@ -12,8 +12,19 @@ and of the scene's `MetricsScore` (`MetricsScore.evaluate_classification`); the 
 scores the pooled scene.
 
 The oracle is independent of the model: pairing rules re-derived from uuids / labels / cameras, one-to-one
-use, the maximum number of equally-labelled pairs by brute force over all one-to-one same-camera pairings,
-metric formulas recomputed in Fractions and their ranges.
+use, the label stage's precedence (as many equally-labelled pairs as any one-to-one same-camera pairing has), THE
+maximality clause as the property words it -- the number of LABEL-CORRECT pairs (the TP count the metrics use:
+equal labels, or a ground truth with the FP label) is the largest over all one-to-one same-camera pairings every
+pair of which the rule can form (label-first: equal label or equal uuid, Lean `PEval.C11.RuleAdmissible`;
+uuid-first: equal uuid), computed per camera by exhaustive search (<= 4+4) / augmenting paths -- metric formulas
+recomputed in Fractions and their ranges.
+
+Known finding C11-N1 (`known_finding`): with an FP-labelled ground truth the label-first pairing is NOT always maximal
+in that sense (the label stage pairs equal labels only, greedily in list order).  A failure of the maximality clause is
+attributed to it iff nothing else fails, the mode is label-first, every camera (frame) where it fails holds an
+FP-labelled ground truth, the shortfall is at most their number (Lean: tlr_tp_maximum_up_to_fp; without such a ground
+truth the count IS maximal: tlr_tp_maximum) and the results are exactly the greedy two-stage pairing in list order.
+Stored replays: harness/corpus/c11/n1_*.json.
 """
 from __future__ import annotations
 
@@ -29,7 +40,10 @@ RULE = (
     "exhaustive: every label assignment over 3 labels for every (n_est, n_gt) <= 3+3 (quick) / 4+4 (thorough, capped "
     "to the time budget) x fixed+seeded camera/uuid layouts (2 cameras, uuids unique per side and camera) x "
     "{TrafficLightLabel with uuid_matching_first in {False, True}, AutowareLabel}; one sweep with the FP label among "
-    "the three; seeded random sets up to 9+9 with 5 labels, 4 camera frames (incl. CAM_TRAFFIC_LIGHT), both tasks, "
+    "the three (both sides, FP a target label); one sweep with estimates over {green, red} and ground truths over {green, red, FP} "
+    "for every (n_est, n_gt) <= 3+3 (thorough 4+4, capped), fixed + seeded layouts incl. two cameras, both uuid-first settings, FP no "
+    "target label (finding C11-N1 is hit here on fixed layouts, independent of the seed); stored replays harness/corpus/c11/*.json; "
+    "seeded random sets up to 9+9 with 5 labels, 4 camera frames (incl. CAM_TRAFFIC_LIGHT), both tasks, "
     "random target-label lists, mixed label families; a malformed stream (null uuids, duplicate uuids per camera). "
     "per-label bucketing: (a) the aligned-uuid sweep over 3 labels, (n_est, n_gt) <= 3+3, repeated for every PROPER "
     "non-empty target subset (both label families, both uuid-first settings); (b) kind 'divide': result lists built "
@@ -39,7 +53,9 @@ RULE = (
     "ground truths and shuffled target lists. "
     "manager level (kind 'manager'): every label assignment over 3 labels for (n_est, n_gt) <= 2+2 as a one-frame scene and as a "
     "two-frame scene (second frame perfect), both label families, both uuid-first settings, target lists of 2 and 3 labels; "
-    "seeded scenes of 1-4 frames with up to 5+5 objects per frame in 1-3 of 4 camera frames (incl. CAM_TRAFFIC_LIGHT), 1-4 target "
+    "the FP-on-the-ground-truth-side sweep (<= 2+2, thorough 3+3; FP-labelled ground truths are kept by the manager although FP "
+    "is no target label) as one- and two-frame scenes, both settings; "
+    "seeded scenes (about every fifth non-perfect one with FP-labelled ground truths) of 1-4 frames with up to 5+5 objects per frame in 1-3 of 4 camera frames (incl. CAM_TRAFFIC_LIGHT), 1-4 target "
     "labels, objects with labels outside the target list, empty sides / empty frames, every 8th scene perfect. "
     "non-trivial = both lists non-empty (manager: in some frame); distinct = distinct canonical case"
 )
@@ -77,9 +93,14 @@ TRUSTED = [
     "the ORACLE recomputes them from the result list (est label, else ground-truth label) and the ground truths",
 ]
 TRUSTED += [
+    "the signature of known finding C11-N1 compares the real results with a Python re-statement of the greedy two-stage pairing "
+    "(`_two_stage`, list order); it is used only to decide KNOWN-FINDING vs VIOLATION for a case whose maximality clause already "
+    "failed, never by the oracle; the maximum itself is computed without it (exhaustive search <= 4+4, augmenting paths above, "
+    "cross-checked against each other and against literal enumeration during development)",
     "kind 'manager': a manager built with dataset_paths=[] (nothing is loaded); matplotlib's figure creation is short-cut (all "
     "managers of the process share one figure; the visualizer is never used); which objects reach the pairing is taken from the "
-    "documented meaning of target_labels (label in the list; the cases use neither 'unknown' nor the FP label outside the list); "
+    "documented meaning of target_labels (label in the list, and every FP-labelled object whatever the list says; the cases do not "
+    "use 'unknown' outside the list, no estimate carries the FP label); "
     "the scene's per-label result lists are not observable, the harness pools the frames' lists the way get_scene_result does "
     "([[]] + one list per frame, ground-truth numbers summed) for the model, the ORACLE counts from the pairs",
 ]
@@ -89,7 +110,19 @@ ASSUMPTIONS = [
     "the [0,1] range of per-label buckets is asserted only when no ground truth carries the FP label: "
     "ClassificationAccuracy takes num_ground_truth from its caller and an FP-labelled ground truth makes every paired "
     "estimate label-correct without being counted in the estimate's label bucket (see report: recall 2.0)",
-    "the maximum-count statement concerns pairs with EQUAL labels (stage-1 rule); uuid_matching_first=False",
+    "maximality is asserted for the count the metrics use (label-correct pairs: equal labels, or the ground truth carries the FP "
+    "label) against every one-to-one same-camera pairing all of whose pairs the rule can form -- label-first: equal label or equal "
+    "uuid (Lean RuleAdmissible); uuid-first: equal uuid (there the answer is checked to be exactly the set of same-uuid same-camera "
+    "pairs). A pair that is label-correct ONLY through the FP label and shares no uuid (estimate GREEN/a against ground truth FP/b) "
+    "cannot be formed by the rule and is no competitor, so leaving it unpaired is not reported (Lean tlr_tp_not_maximal_1x1 states "
+    "that behaviour). Separately the label stage's precedence is asserted: as many EQUALLY-labelled pairs as any one-to-one "
+    "same-camera pairing has (label-first)",
+    "known finding C11-N1: a failure of the maximality clause alone, label-first, with an FP-labelled ground truth in every camera "
+    "(and frame) where it fails, a shortfall of at most their number there, and results identical to the greedy two-stage pairing in "
+    "list order, is reported as KNOWN-FINDING, not as a violation; any maximality failure without an FP-labelled ground truth, with "
+    "a larger shortfall, with other results, in uuid-first mode, or next to any other failing clause is a violation",
+    "manager level: the [0,1] range and the 'all 1' statement are not asserted for a frame (scene) with an FP-labelled ground truth "
+    "(same reason as for the per-label buckets above)",
 ]
 
 TL = ["green", "red", "yellow", "unknown", "false_positive"]
@@ -168,19 +201,21 @@ def _layouts(ne, ng, rng, n_random):
     return res
 
 
-def _sweep(rng, nmax, labels, fam, ufs, n_random, cap=None, target_sets=None, n_layouts=None):
+def _sweep(rng, nmax, labels, fam, ufs, n_random, cap=None, target_sets=None, n_layouts=None, gt_labels=None):
+    """every label assignment (estimates over `labels`, ground truths over `gt_labels` or `labels`) x layouts x ufs x target sets"""
     cases = []
+    all_labels = list(labels) + [x for x in (gt_labels or []) if x not in labels]
     for ne in range(nmax + 1):
         for ng in range(nmax + 1):
             lays = _layouts(ne, ng, rng, n_random if ne + ng > 0 else 0)
             if n_layouts is not None:
                 lays = lays[:n_layouts]
             for (ce, ue, cg, ug) in lays:
-                for labs in itertools.product(labels, repeat=ne + ng):
+                for labs in itertools.product(*([labels] * ne + [gt_labels or labels] * ng)):
                     ests = [[labs[i], ce[i], ue[i]] for i in range(ne)]
                     gts = [[labs[ne + j], cg[j], ug[j]] for j in range(ng)]
                     for uf in ufs:
-                        for k, tg in enumerate(target_sets or [labels]):
+                        for k, tg in enumerate(target_sets or [all_labels]):
                             cases.append(_case(fam, uf, ests, gts, targets=tg, split=(ne + ng + k) % 3))
     if cap is not None and len(cases) > cap:
         # keep every size; thin out uniformly (thorough tier budget)
@@ -302,10 +337,11 @@ def _mcase(fam, uf, targets, cams, frames):
 
 
 def _kept(case, specs):
-    """indices of the objects the manager evaluates: those whose label is a target label (the cases use neither the
-    'unknown' nor the FP label outside the target list, so this is the whole filtering rule)"""
+    """indices of the objects the manager evaluates: those whose label is a target label, and those with the FP label
+    whatever the target list says (filter_objects keeps every FP-labelled object: it marks a place where nothing should be
+    reported).  The cases do not use the 'unknown' label outside the target list, so this is the whole filtering rule."""
     T = set(case["targets"])
-    return [i for i, o in enumerate(specs) if o[0] in T]
+    return [i for i, o in enumerate(specs) if o[0] in T or o[0] == "false_positive"]
 
 
 def _random_scene(rng, perfect=False):
@@ -315,6 +351,8 @@ def _random_scene(rng, perfect=False):
     labs = list(targets) + ([rng.choice(NON_TARGET[fam])] if rng.random() < 0.3 else [])
     cams = rng.sample(CAMS, rng.choice([1, 2, 2, 3]))
     nu = rng.randint(2, 6)
+    # in every fifth scene or so some ground truths carry the FP label ("nothing should be reported here"); never in a perfect one
+    p_fp = rng.choice([0.2, 0.4]) if (not perfect and rng.random() < 0.2) else 0.0
     frames = []
     for _ in range(rng.choice([1, 2, 2, 3, 4])):
         def side(n):
@@ -347,6 +385,10 @@ def _random_scene(rng, perfect=False):
                     ests.append(o)
         else:
             ests = side(rng.randint(1, 5))
+        if p_fp:  # after the estimates were derived: estimates never carry the FP label here
+            for o in gts:
+                if rng.random() < p_fp:
+                    o[0] = "false_positive"
         frames.append({"ests": ests, "gts": gts})
     return _mcase(fam, rng.random() < 0.5, targets, cams, frames)
 
@@ -359,6 +401,14 @@ def _manager_cases(rng, tier):
             fr = {"ests": c["ests"], "gts": c["gts"]}
             k = len(cases)
             cases.append(_mcase(fam, c["uf"], labs if k % 3 else labs[:2], CAMS[:2], [fr] if k % 2 else [fr, {"ests": c["gts"], "gts": c["gts"]}]))
+    # ground truths with the FP label (kept by the manager whatever the target list says): every assignment of {green, red} to
+    # <= 2 (thorough: 3) estimates and of {green, red, FP} to as many ground truths, one- and two-frame scenes, both settings
+    for c in _sweep(rng, 2 if tier == "quick" else 3, TL[:2], "tl", (False, True), 1, gt_labels=TL[:2] + ["false_positive"]):
+        if any(o[0] == "false_positive" for o in c["gts"]):
+            fr = {"ests": c["ests"], "gts": c["gts"]}
+            k = len(cases)
+            cases.append(_mcase("tl", c["uf"], TL[:2] if k % 3 else TL[:3], CAMS[:2],
+                                [fr] if k % 2 else [{"ests": [o for o in c["gts"] if o[0] != "false_positive"], "gts": c["gts"]}, fr]))
     n = 1500 if tier == "quick" else 20000
     for i in range(n):
         cases.append(_random_scene(rng, perfect=(i % 8 == 0)))
@@ -502,6 +552,17 @@ def corpus():
     cs.append(_mcase("aw", False, ["car", "bus"], [f, t], [
         {"ests": [["car", f, "a"], ["bus", f, "c"], ["truck", f, "d"]], "gts": [["car", f, "a"], ["bus", f, "b"]]},
         {"ests": [["car", f, "a"], ["bus", t, "c"]], "gts": [["bus", f, "a"]]}]))
+    # stored replays (harness/corpus/c11/*.json): finding C11-N1 and its companions; {"case": ...} or {"cases": [...]}
+    import json
+
+    seen = {json.dumps(c, sort_keys=True) for c in cs}
+    for p in sorted((core.VERIF / "harness" / "corpus" / "c11").glob("*.json")):
+        d = json.loads(p.read_text())
+        for c in ([d["case"]] if "case" in d else []) + list(d.get("cases", [])):
+            k = json.dumps(c, sort_keys=True)
+            if k not in seen:
+                seen.add(k)
+                cs.append(c)
     return cs
 
 
@@ -598,6 +659,8 @@ def generate(rng, tier):
         cases += _sweep(rng, 3, AW[:3], "aw", (False,), 1)
         cases += _sweep(rng, 2, ["green", "red", "false_positive"], "tl", (False, True), 1)
         cases += _sweep(rng, 2, ["car", "bus", "false_positive"], "aw", (True,), 0)
+        # FP label on the ground-truth side only, outside the target list (as in recorded data): finding C11-N1 lives here
+        cases += _sweep(rng, 3, TL[:2], "tl", (False, True), 1, gt_labels=TL[:2] + ["false_positive"], target_sets=[TL[:2]])
         cases += _sweep(rng, 3, AW[:3], "aw", (False,), 0, n_layouts=1,
                         target_sets=[["car"], ["bus", "pedestrian"], ["pedestrian", "car"]])
         cases += _sweep(rng, 2, AW[:3], "aw", (False,), 0, n_layouts=1, target_sets=[["bus"], ["pedestrian"], ["car", "bus"]])
@@ -615,6 +678,7 @@ def generate(rng, tier):
         cases += _sweep(rng, 4, AW[:3], "aw", (False,), 1, cap=60000)
         cases += _sweep(rng, 3, ["green", "red", "false_positive"], "tl", (False, True), 2)
         cases += _sweep(rng, 3, ["car", "bus", "false_positive"], "aw", (True,), 1)
+        cases += _sweep(rng, 4, TL[:2], "tl", (False, True), 2, gt_labels=TL[:2] + ["false_positive"], target_sets=[TL[:2]], cap=60000)
         cases += _sweep(rng, 3, AW[:3], "aw", (False,), 1, target_sets=_subsets(AW[:3], True), n_layouts=2)
         cases += _sweep(rng, 3, TL[:3], "tl", (False, True), 0, target_sets=_subsets(TL[:3], True), n_layouts=1)
         cases += _divide_sweep(AW[:3], "aw", 4)
@@ -947,6 +1011,94 @@ def _class_sum(E, G):
     return tot
 
 
+FP_NAME = "false_positive"
+MAX_TAG = "label-correct pairs not the largest possible under the pairing rule: "
+N1 = "C11-N1"
+
+
+def _rule_admits(uf, le_i, lg_j, e, g):
+    """can the property's pairing rule for traffic lights form the pair (e, g)?  e, g = [label, camera, uuid].
+    label-first: the label stage pairs EQUAL labels, the uuid stage EQUAL uuids (Lean: PEval.C11.RuleAdmissible);
+    uuid-first: the first stage asks for equal label AND equal uuid, the second for equal uuid, so every pair shares
+    the uuid.  Always within one camera."""
+    if e[1] != g[1]:
+        return False
+    return e[2] == g[2] if uf else (le_i == lg_j or e[2] == g[2])
+
+
+def _label_correct(le_i, lg_j):
+    """is_label_correct of a pair: equal labels, or the ground truth carries the FP label (whatever the estimate says)"""
+    return lg_j[1] == FP_NAME or le_i == lg_j
+
+
+def _max_matching(n, adj):
+    """size and one witness of a maximum matching of the bipartite graph adj[i] = [j...] (augmenting paths)"""
+    owner = {}
+
+    def aug(i, seen):
+        for j in adj[i]:
+            if j in seen:
+                continue
+            seen.add(j)
+            if j not in owner or aug(owner[j], seen):
+                owner[j] = i
+                return True
+        return False
+
+    size = sum(1 for i in range(n) if aug(i, set()))
+    return size, sorted((i, j) for j, i in owner.items())
+
+
+def _max_brute(n, adj):
+    """the same by definition: every one-to-one choice of edges is tried (small sets)"""
+    best = [0, []]
+
+    def rec(i, used, cur):
+        if len(cur) + (n - i) <= best[0]:
+            return
+        if i == n:
+            best[0], best[1] = len(cur), list(cur)
+            return
+        for j in adj[i]:
+            if j not in used:
+                cur.append((i, j))
+                rec(i + 1, used | {j}, cur)
+                cur.pop()
+        rec(i + 1, used, cur)
+
+    rec(0, frozenset(), [])
+    return best[0], best[1]
+
+
+def _max_label_correct(uf, E, G, le, lg, ie, ig):
+    """THE maximum of the property: the largest number of label-correct pairs of any one-to-one pairing of the estimates
+    `ie` with the ground truths `ig` (indices into E / G) every pair of which the rule admits.  A pair that is not
+    label-correct adds nothing and only uses objects up, so the maximum is a maximum matching of the graph of pairs that
+    are rule-admissible AND label-correct; small sets are searched exhaustively, larger ones by augmenting paths."""
+    adj = [[b for b, j in enumerate(ig) if _rule_admits(uf, le[i], lg[j], E[i], G[j]) and _label_correct(le[i], lg[j])]
+           for i in ie]
+    size, wit = (_max_brute if len(ie) <= 4 and len(ig) <= 4 else _max_matching)(len(ie), adj)
+    return size, [(ie[a], ig[b]) for a, b in wit]
+
+
+def _two_stage(uf, E, G, le, lg):
+    """the listed deviation of finding C11-N1 is 'the greedy two-stage pairing in list order and nothing else': stage 1
+    walks the estimates and, for each, the ground truths in list order and pairs equal labels (uuid-first: and equal
+    uuids) within a camera when both are still free; stage 2 does the same with equal uuids on what is left.  Used ONLY by
+    the signature of the known finding (never by the oracle)."""
+    fe, fg = set(range(len(E))), set(range(len(G)))
+    res = []
+    for stage in (1, 2):
+        for i in sorted(fe):
+            for j in sorted(fg):
+                if i in fe and j in fg and E[i][1] == G[j][1] and \
+                        ((le[i] == lg[j] and (not uf or E[i][2] == G[j][2])) if stage == 1 else E[i][2] == G[j][2]):
+                    res.append([i, j])
+                    fe.discard(i)
+                    fg.discard(j)
+    return res
+
+
 def _frac_ratio(a, b):
     return None if b == 0 else Fraction(a, b)
 
@@ -1034,10 +1186,11 @@ def _chk_buckets(case, E, G, out):
     return None
 
 
-def _oracle_manager(case, out):
+def _oracle_manager(case, out, short=None):
     """the property evaluated on what the manager holds: frame_result.object_results of every frame (pairing statement on the
-    objects with target labels), the classification scores of every frame and of the scene (counting definitions over the
-    pairs, per label and summarised; in [0,1] when defined; all 1 for a perfect frame / scene)"""
+    objects the manager evaluates: those with a target label and those with the FP label), the classification scores of every
+    frame and of the scene (counting definitions over the pairs, per label and summarised; in [0,1] when defined and no ground
+    truth carries the FP label; all 1 for a perfect frame / scene)"""
     if "err" in out:
         return f"the manager raised {out['err']} on unique non-null uuids"
     fam = case["fam"]
@@ -1049,6 +1202,7 @@ def _oracle_manager(case, out):
         return f"{out.get('n_frame_results')} frame results for {len(case['frames'])} frames"
     pooled = {t: [0, 0, 0] for t in T}  # results, ground truths, label-correct results
     all_perfect = True
+    scene_fp_gt = False
     for k, (fr, fo) in enumerate(zip(case["frames"], out["frames"])):
         ke, kg = _kept(case, fr["ests"]), _kept(case, fr["gts"])
         E, G = [fr["ests"][i] for i in ke], [fr["gts"][j] for j in kg]
@@ -1057,32 +1211,38 @@ def _oracle_manager(case, out):
             if i not in pe or (j is not None and j not in pg):
                 return f"frame {k}: result ({i},{j}) uses an object that is not among the frame's objects with a target label"
         pairs = [[pe[i], None if j is None else pg[j]] for i, j in fo["pairs"]]
-        d = _oracle_pairing(c2, E, G, pairs)
+        d = _oracle_pairing(c2, E, G, pairs, short, where=f"frame {k}, ")
         if d:
             return f"frame {k}: {d}"
         if sorted(fo["gts_kept"]) != kg:
             return f"frame {k}: ground truths evaluated {sorted(fo['gts_kept'])}, those with a target label are {kg}"
         le, lg = [s[0] for s in E], [s[0] for s in G]
-        flags = [j is not None and le[i] == lg[j] for i, j in pairs]
+        fp_gt = FP_NAME in lg
+        scene_fp_gt = scene_fp_gt or fp_gt
+        flags = [j is not None and (lg[j] == FP_NAME or le[i] == lg[j]) for i, j in pairs]
         if flags != fo["correct"]:
             return f"frame {k}: is_label_correct {fo['correct']} expected {flags}"
         per = {t: [0, 0, 0] for t in T}
         for (i, j), ok in zip(pairs, flags):
-            per[le[i]][0] += 1
-            per[le[i]][2] += int(ok)
+            # a result is scored under its estimate's label, else (estimate label no target) under its ground truth's
+            b = le[i] if le[i] in per else lg[j] if j is not None and lg[j] in per else None
+            if b is not None:
+                per[b][0] += 1
+                per[b][2] += int(ok)
         for x in lg:
-            per[x][1] += 1
-        d = _chk_scores(f"frame {k}", fo, T, per)
+            if x in per:  # an FP-labelled ground truth outside the target list is evaluated but counted under no label
+                per[x][1] += 1
+        d = _chk_scores(f"frame {k}", fo, T, per, unit=not fp_gt)
         if d:
             return d
-        perfect = len(G) > 0 and len(pairs) == len(G) and all(flags)
+        perfect = len(G) > 0 and len(pairs) == len(G) and all(j is not None and le[i] == lg[j] for i, j in pairs) and not fp_gt
         all_perfect = all_perfect and (perfect or (not E and not G))
         if perfect and fo["summary"] != [1.0, 1.0, 1.0, 1.0]:
             return f"frame {k}: every ground truth paired with an equally-labelled estimate, nothing else reported, but summary = {fo['summary']}"
         for t in T:
             for q in range(3):
                 pooled[t][q] += per[t][q]
-    d = _chk_scores("scene", out["scene"], T, pooled)
+    d = _chk_scores("scene", out["scene"], T, pooled, unit=not scene_fp_gt)
     if d:
         return d
     if all_perfect and sum(v[1] for v in pooled.values()) > 0:
@@ -1094,8 +1254,9 @@ def _oracle_manager(case, out):
     return None
 
 
-def _chk_scores(name, so, T, per):
-    """one ClassificationMetricsScore against the counts per[label] = [results, ground truths, label-correct results]"""
+def _chk_scores(name, so, T, per, unit=True):
+    """one ClassificationMetricsScore against the counts per[label] = [results, ground truths, label-correct results];
+    unit: assert the [0,1] range too (not when a ground truth carries the FP label, see ASSUMPTIONS)"""
     if so.get("n_scores") != 1:
         return f"{name}: {so.get('n_scores')} classification scores instead of one"
     if so["labels"] != [[t] for t in T]:
@@ -1103,7 +1264,7 @@ def _chk_scores(name, so, T, per):
     S = [0, 0, 0]
     for t, a in zip(T, so["accs"]):
         n, ngt, tp = per[t]
-        d = _chk_acc(f"{name}.accuracies[{t}]", a, tp, n, ngt, True)
+        d = _chk_acc(f"{name}.accuracies[{t}]", a, tp, n, ngt, unit)
         if d:
             return d
         if a["num_gt"] != ngt:
@@ -1112,15 +1273,52 @@ def _chk_scores(name, so, T, per):
     p, r = _frac_ratio(S[2], S[0]), _frac_ratio(S[2], S[1])
     f1 = None if (p is None or r is None or p + r == 0) else 2 * p * r / (p + r)
     for k, got, want in zip(("accuracy", "precision", "recall", "f1"), so["summary"], (_frac_ratio(S[2], S[0] + S[1] - S[2]), p, r, f1)):
-        d = _chk_score(f"{name}.summary.{k}", got, want, True)
+        d = _chk_score(f"{name}.summary.{k}", got, want, unit)
         if d:
             return d
     return None
 
 
 def oracle(case, out):
+    """every clause of the property; a failure of the maximality clause alone is reported last (MAX_TAG), any other failing
+    clause first -- so a MAX_TAG failure means: everything else holds"""
+    other, short = _check(case, out)
+    if other:
+        return other
+    if short:
+        return MAX_TAG + "; ".join(s["msg"] for s in short[:3])
+    return None
+
+
+def known_finding(case, out, failure):
+    """C11-N1 (label-first traffic-light pairing, ground truth with the FP label): a pair with an FP-labelled ground truth
+    is label-correct whatever the estimate says, but the label stage pairs EQUAL labels only, greedily in list order, so an
+    estimate that shares the uuid of an FP-labelled ground truth may be spent on an equally-labelled ground truth that another
+    estimate could have taken.  Signature (Lean: tlr_tp_exact, tlr_tp_maximum, tlr_tp_maximum_up_to_fp): ONLY the maximality
+    clause fails; label-first mode; in every camera (and frame) where it fails there is an FP-labelled ground truth and the
+    shortfall is at most their number; and the results are exactly the greedy two-stage pairing in list order."""
+    if not isinstance(failure, str) or not failure.startswith(MAX_TAG):
+        return None
+    other, short = _check(case, out)
+    if other or not short:
+        return None
+    for s in short:
+        if s["uf"] or s["fp_gts"] < 1 or not (0 < s["max"] - s["got"] <= s["fp_gts"]):
+            return None
+        if s["pairs"] != s["expected_by_signature"]:
+            return None
+    return N1
+
+
+def _check(case, out):
+    """-> (first failure of any clause other than maximality | None, [maximality shortfalls])"""
+    short = []
+    return _oracle_rest(case, out, short), short
+
+
+def _oracle_rest(case, out, short):
     if case.get("kind") == "manager":
-        return _oracle_manager(case, out)
+        return _oracle_manager(case, out, short)
     if case.get("kind") == "divide":
         E, G, link = _div_specs(case)
         c2 = {"fe": case["fam"], "fg": case["fam"], "targets": case["targets"]}
@@ -1134,16 +1332,19 @@ def oracle(case, out):
     E, G = case["ests"], case["gts"]
     if "err" in out:
         return f"raised {out['err']} on unique non-null uuids"
-    d = _oracle_pairing(case, E, G, out["pairs"])
+    d = _oracle_pairing(case, E, G, out["pairs"], short)
     if d:
         return d
     return _oracle_scores(case, E, G, out)
 
 
-def _oracle_pairing(case, E, G, pairs):
+def _oracle_pairing(case, E, G, pairs, short=None, where=""):
     """THE pairing statement of the property on one pair of lists (case gives the label families and uuid-first setting):
     same camera, every object at most once, generic: paired iff same uuid (and camera), traffic lights: label stage
-    then uuid stage, the number of equally-labelled pairs the largest possible"""
+    then uuid stage (the label stage first: as many equally-labelled pairs as any one-to-one same-camera pairing has),
+    and the number of LABEL-CORRECT pairs the largest possible over the one-to-one pairings the rule admits.
+    `short` (a list): a shortfall of that last clause is recorded there, per camera, instead of being returned, so that the
+    caller can evaluate every other clause too (the signature of finding C11-N1 needs 'nothing else fails')."""
     P = [(i, j) for i, j in pairs if j is not None]
     Fp = [i for i, j in pairs if j is None]
     es = [i for i, _ in pairs]
@@ -1182,6 +1383,26 @@ def _oracle_pairing(case, E, G, pairs):
         best = _max_equal_pairs(ke, kg) if len(E) <= 6 and len(G) <= 6 else _class_sum(ke, kg)
         if got != best:
             return f"{got} equally-labelled pairs, but a one-to-one same-camera pairing with {best} exists"
+    if tlr:
+        # "... so that the number of label-correct pairs is the largest possible under that rule" -- the count the metrics use
+        # (is_label_correct: equal labels, or an FP-labelled ground truth), against every one-to-one pairing whose pairs the
+        # rule can form.  Pairs never cross cameras, so the maximum is taken camera by camera.
+        for cam in sorted({s[1] for s in E} & {s[1] for s in G}):
+            ie = [i for i, s in enumerate(E) if s[1] == cam]
+            ig = [j for j, s in enumerate(G) if s[1] == cam]
+            got = sum(1 for i, j in P if E[i][1] == cam and _label_correct(le[i], lg[j]))
+            best, wit = _max_label_correct(case["uf"], E, G, le, lg, ie, ig)
+            if got > best:
+                return f"{where}camera {cam}: {got} label-correct pairs reported, more than any pairing the rule admits ({best})"
+            if got < best:
+                nfp = sum(1 for j in ig if lg[j][1] == FP_NAME)
+                msg = (f"{where}camera {cam}: {got} label-correct pair(s) reported (results {pairs}), but the one-to-one pairing "
+                       f"{wit} -- every pair with equal {'uuid' if case['uf'] else 'label or equal uuid'}, same camera -- has {best}; "
+                       f"{nfp} ground truth(s) of that camera carry the FP label")
+                if short is None:
+                    return MAX_TAG + msg
+                short.append({"msg": msg, "uf": bool(case["uf"]), "got": got, "max": best, "fp_gts": nfp,
+                              "pairs": [list(p) for p in pairs], "expected_by_signature": _two_stage(case["uf"], E, G, le, lg)})
     return None
 
 
@@ -1284,6 +1505,8 @@ def _branches_manager(case, out):
     T = set(case["targets"])
     if any(o[0] not in T for fr in case["frames"] for o in fr["ests"] + fr["gts"]):
         br.append("manager:objects-outside-targets")
+    if any(o[0] == "false_positive" for fr in case["frames"] for o in fr["gts"]):
+        br.append("manager:fp-labelled-gt")
     for fr, fo in zip(case["frames"], out["frames"]):
         e, g = bool(_kept(case, fr["ests"])), bool(_kept(case, fr["gts"]))
         br.append("manager:frame:" + ("both" if e and g else "no-est" if g else "no-gt" if e else "empty"))
